@@ -1,9 +1,13 @@
 package props
 
 import (
+	"context"
+	"time"
+
 	"bytes"
 	"encoding/json"
 	"fmt"
+	"github.com/skx/evalfilter/v2/object"
 	"os"
 	"path/filepath"
 	"sort"
@@ -109,8 +113,13 @@ type Case struct {
 	Obj    *eng.ObjSpec          `json:"obj,omitempty"`
 	Vars   map[string]lang.Value `json:"vars,omitempty"`
 	NoOpt  bool                  `json:"noopt,omitempty"`
-	Exp    Expect                `json:"expect"`
-	Msg    string                `json:"message,omitempty"`
+	// HostVals: host functions name() returning a fresh object of the value.
+	HostVals map[string]lang.Value `json:"hostvals,omitempty"`
+	// UseRun: call Run instead of Execute and compare with the truth of Exp.Val.
+	UseRun bool   `json:"use_run,omitempty"`
+	TZ     string `json:"tz,omitempty"` // value of the TZ variable during the run ("-" = unset)
+	Exp    Expect `json:"expect"`
+	Msg    string `json:"message,omitempty"`
 }
 
 func (c *Case) fix() {
@@ -123,6 +132,10 @@ func (c *Case) fix() {
 	for k, v := range c.Exp.Globals {
 		v.Fix()
 		c.Exp.Globals[k] = v
+	}
+	for k, v := range c.HostVals {
+		v.Fix()
+		c.HostVals[k] = v
 	}
 }
 
@@ -223,11 +236,86 @@ func runCase(c *Case) error {
 	if c.Obj != nil {
 		obj = c.Obj.Build()
 	}
-	res := eng.Quick(c.Script, obj, c.Vars, c.NoOpt)
-	if err := checkResult(res, c.Exp); err != nil {
-		return err
+	if c.TZ != "" {
+		old, had := os.LookupEnv("TZ")
+		if c.TZ == "-" {
+			os.Unsetenv("TZ")
+		} else {
+			os.Setenv("TZ", c.TZ)
+		}
+		defer func() {
+			if had {
+				os.Setenv("TZ", old)
+			} else {
+				os.Unsetenv("TZ")
+			}
+		}()
 	}
-	return checkEffects(res, c.Exp)
+	if len(c.HostVals) == 0 && !c.UseRun {
+		res := eng.Quick(c.Script, obj, c.Vars, c.NoOpt)
+		if err := checkResult(res, c.Exp); err != nil {
+			return err
+		}
+		return checkEffects(res, c.Exp)
+	}
+	r := eng.NewRunner(c.Script)
+	ctx, cancel := context.WithTimeout(context.Background(), 20*time.Second)
+	defer cancel()
+	r.E.SetContext(ctx)
+	for _, k := range sortedKeys(c.Vars) {
+		r.E.SetVariable(k, eng.ToObject(c.Vars[k]))
+	}
+	for _, k := range sortedKeys(c.HostVals) {
+		v := c.HostVals[k]
+		name := k
+		r.E.AddFunction(name, func(args []object.Object) object.Object {
+			r.Trace = append(r.Trace, name+"()")
+			return eng.ToObject(v)
+		})
+	}
+	perr, pan := r.Prepare(c.NoOpt)
+	if pan != nil {
+		return fmt.Errorf("Prepare panicked: %v", pan)
+	}
+	if perr != nil {
+		return checkResult(eng.Result{PrepareErr: perr}, c.Exp)
+	}
+	if !c.UseRun {
+		res := r.Execute(obj)
+		if err := checkResult(res, c.Exp); err != nil {
+			return err
+		}
+		return nil
+	}
+	var verdict bool
+	var rerr error
+	var pan2 interface{}
+	func() {
+		defer func() { pan2 = recover() }()
+		verdict, rerr = r.E.Run(obj)
+	}()
+	if pan2 != nil {
+		return fmt.Errorf("Run panicked: %v", pan2)
+	}
+	if c.Exp.Unspec {
+		return nil
+	}
+	if c.Exp.Err {
+		if rerr == nil {
+			return fmt.Errorf("Run: expected an error (%s), got %v", c.Exp.Why, verdict)
+		}
+		return nil
+	}
+	if rerr != nil {
+		if c.Exp.Quirk {
+			return nil
+		}
+		return fmt.Errorf("Run: expected %v (truth of %s), got error %v", c.Exp.Val.Truth(), c.Exp.Val.Describe(), rerr)
+	}
+	if verdict != c.Exp.Val.Truth() {
+		return fmt.Errorf("Run returned %v for a script result %s whose truth is %v", verdict, c.Exp.Val.Describe(), c.Exp.Val.Truth())
+	}
+	return nil
 }
 
 // ---- replay files and violation markers ----
